@@ -15,7 +15,7 @@ import z3
 from . import explore as _ex
 from . import loader
 from .ctx import ConcreteCtx, Skip
-from .values import SymBool, SymBytes, SymInt, conc
+from .values import SymBool, SymBytes, SymInt, SymStr, conc
 
 VERIF = os.path.dirname(os.path.dirname(os.path.abspath(__file__)))
 EXIT_HARNESS = 3
@@ -54,6 +54,12 @@ class SymCtx:
         vs = [z3.BitVec("%s_%d" % (name, i), 8) for i in range(n)]
         self.inputs[name] = ("bytes", vs)
         return SymBytes([SymInt(z3.ZeroExt(1, v), 9, 0, 255) for v in vs])
+
+    def str(self, name, n):
+        """a string of n symbolic 7-bit characters"""
+        vs = [z3.BitVec("%s_%d" % (name, i), 7) for i in range(n)]
+        self.inputs[name] = ("str", vs)
+        return SymStr([SymInt(z3.ZeroExt(1, v), 8, 0, 127) for v in vs])
 
     def zeros(self, name, n):
         """zero buffer whose length is the (possibly symbolic) n"""
@@ -110,6 +116,8 @@ class SymCtx:
             if d[0] == "int":
                 v = model.eval(d[1], model_completion=True) if model is not None else None
                 out[name] = v.as_long() if v is not None else 0
+            elif d[0] == "str":
+                out[name] = "".join(chr(model.eval(t, model_completion=True).as_long()) for t in d[1])
             elif d[0] == "bytes":
                 bs = bytearray()
                 for t in d[1]:
